@@ -44,6 +44,8 @@ type Check struct {
 	batches       map[string]int64
 	features      map[string]int64
 	logBytes      int64
+	logByFlags    map[string]int64
+	sinkArmed     map[string]int64
 	raceReports   int64
 	raceHarness   int64
 	gateBatches   int64
@@ -66,7 +68,7 @@ func newCheck(prop, tier string, seed uint64, env *Env) *Check {
 	c := &Check{prop: prop, tier: tier, seed: seed, env: env, refs: NewRefStore(env),
 		counters: map[string]int64{}, fps: map[string]bool{}, fired: map[string]int64{}, configured: map[string]int64{},
 		mapSites: map[string]*plan.MapSiteStat{}, opsByEntry: map[string]int64{}, opsByTree: map[string]int64{},
-		opsByOption: map[string]int64{}, batches: map[string]int64{}, features: map[string]int64{}}
+		opsByOption: map[string]int64{}, batches: map[string]int64{}, features: map[string]int64{}, logByFlags: map[string]int64{}, sinkArmed: map[string]int64{}}
 	switch prop {
 	case "C01":
 		c.judge = judgeC01
@@ -202,6 +204,22 @@ func (c *Check) absorb(p *plan.Plan, pr *ProcResult) {
 	c.yields += o.Yields
 	c.simNs += o.SimNs
 	c.logBytes += o.LogBytes
+	if p.Sink != "" && p.Sink != "null" {
+		var fl uint
+		for _, op := range p.Options {
+			fl |= op.Flags
+		}
+		if p.Sink == "file" {
+			for _, b := range []uint{2, 4, 8, 16} {
+				if fl == b {
+					c.logByFlags[fmt.Sprintf("flags=%d", b)] += o.LogBytes
+				}
+			}
+		} else if fl&30 != 0 {
+			// a failing sink on a run whose flags make the library log: every log write of the run fails
+			c.sinkArmed["sink:"+p.Sink+":write-error-on-logging-run"]++
+		}
+	}
 	c.gateBatches += int64(o.ChildGates)
 	c.foreign += int64(o.Foreign)
 	if o.SitesHit > c.sitesHitMax {
@@ -544,6 +562,9 @@ func (c *Check) minimise(v *Violation, budget time.Duration) (*plan.Plan, *Viola
 		for oi := range best.Tasks[ti] {
 			ti, oi := ti, oi
 			try(func(q *plan.Plan) bool {
+				if ti >= len(q.Tasks) || oi >= len(q.Tasks[ti]) {
+					return false
+				}
 				op := &q.Tasks[ti][oi]
 				if op.Reader == nil {
 					return false
@@ -552,6 +573,9 @@ func (c *Check) minimise(v *Violation, budget time.Duration) (*plan.Plan, *Viola
 				return true
 			})
 			try(func(q *plan.Plan) bool {
+				if ti >= len(q.Tasks) || oi >= len(q.Tasks[ti]) {
+					return false
+				}
 				op := &q.Tasks[ti][oi]
 				if op.Reader == nil || (len(op.Reader.Chunks) == 0 && len(op.Reader.ZeroReads) == 0 && len(op.Reader.DelayUs) == 0) {
 					return false
@@ -560,6 +584,9 @@ func (c *Check) minimise(v *Violation, budget time.Duration) (*plan.Plan, *Viola
 				return true
 			})
 			try(func(q *plan.Plan) bool {
+				if ti >= len(q.Tasks) || oi >= len(q.Tasks[ti]) {
+					return false
+				}
 				op := &q.Tasks[ti][oi]
 				if op.FS == nil || op.FS.Kind == "ok" {
 					return false
@@ -568,6 +595,9 @@ func (c *Check) minimise(v *Violation, budget time.Duration) (*plan.Plan, *Viola
 				return true
 			})
 			try(func(q *plan.Plan) bool {
+				if ti >= len(q.Tasks) || oi >= len(q.Tasks[ti]) {
+					return false
+				}
 				op := &q.Tasks[ti][oi]
 				if op.Net == nil {
 					return false
@@ -582,6 +612,9 @@ func (c *Check) minimise(v *Violation, budget time.Duration) (*plan.Plan, *Viola
 				return true
 			})
 			try(func(q *plan.Plan) bool {
+				if ti >= len(q.Tasks) || oi >= len(q.Tasks[ti]) {
+					return false
+				}
 				op := &q.Tasks[ti][oi]
 				if op.Net == nil || op.Net.Body == nil {
 					return false
@@ -676,28 +709,28 @@ func (c *Check) minimise(v *Violation, budget time.Duration) (*plan.Plan, *Viola
 	for oi := range best.Options {
 		oi := oi
 		try(func(q *plan.Plan) bool {
-			if q.Options[oi].Flags == 0 {
+			if oi >= len(q.Options) || q.Options[oi].Flags == 0 {
 				return false
 			}
 			q.Options[oi].Flags = 0
 			return true
 		})
 		try(func(q *plan.Plan) bool {
-			if !q.Options[oi].Skip {
+			if oi >= len(q.Options) || !q.Options[oi].Skip {
 				return false
 			}
 			q.Options[oi].Skip = false
 			return true
 		})
 		try(func(q *plan.Plan) bool {
-			if q.Options[oi].URL == nil {
+			if oi >= len(q.Options) || q.Options[oi].URL == nil {
 				return false
 			}
 			q.Options[oi].URL = nil
 			return true
 		})
 		try(func(q *plan.Plan) bool {
-			if q.Options[oi].URL == nil || *q.Options[oi].URL == "http://example.com/" {
+			if oi >= len(q.Options) || q.Options[oi].URL == nil || *q.Options[oi].URL == "http://example.com/" {
 				return false
 			}
 			u := "http://example.com/"
@@ -705,7 +738,7 @@ func (c *Check) minimise(v *Violation, budget time.Duration) (*plan.Plan, *Viola
 			return true
 		})
 		try(func(q *plan.Plan) bool {
-			if q.Options[oi].Algo == 0 {
+			if oi >= len(q.Options) || q.Options[oi].Algo == 0 {
 				return false
 			}
 			q.Options[oi].Algo = 0
@@ -716,7 +749,7 @@ func (c *Check) minimise(v *Violation, budget time.Duration) (*plan.Plan, *Viola
 	for ti := range best.Trees {
 		ti := ti
 		try(func(q *plan.Plan) bool {
-			if !q.Trees[ti].Detached {
+			if ti >= len(q.Trees) || !q.Trees[ti].Detached {
 				return false
 			}
 			q.Trees[ti].Detached = false
@@ -876,30 +909,75 @@ func runCheck(prop, tier string, seed uint64, workers, budgetOverride int, keep,
 	knownHits := 0
 	classes := c.distinctClasses()
 	sort.Strings(classes)
-	minBudget := 45 * time.Second
+	minBudget := 30 * time.Second
+	minTotal := 80 * time.Second
 	if tier == "thorough" {
 		minBudget = 4 * time.Minute
+		minTotal = 15 * time.Minute
 	}
+	minStart := time.Now()
 	var lines []string
 	seenFinal := map[string]bool{}
+	knownSeen := map[string]bool{}
 	for _, cl := range classes {
 		if reported+knownHits >= 8 {
 			break
+		}
+		if left := minTotal - time.Since(minStart); left < minBudget {
+			minBudget = left
+			if minBudget < 2*time.Second {
+				minBudget = 2 * time.Second
+			}
 		}
 		v := c.smallestOf(cl)
 		conf := c.confirm(v)
 		if conf == nil {
 			continue
 		}
+		// An open known finding is recognised by its signature before any
+		// shrinking: same oracle class, and the violation disappears when the
+		// signature's dimension is set back to canonical.
+		if k := matchKnown(known, conf, dimensions(conf.Plan)); k != nil {
+			q := clonePlan(conf.Plan)
+			for _, n := range k.Needs {
+				switch n {
+				case "childorder":
+					q.ChildOrder = "canonical"
+				case "maporder":
+					q.MapOrder = plan.MapOrder{Default: "sorted"}
+				}
+			}
+			if len(k.Needs) > 0 && c.reproduces(q, conf.Class) == nil {
+				if !knownSeen[k.What] {
+					knownSeen[k.What] = true
+					path := c.writeReplay(conf.Plan, conf, conf, dimensions(conf.Plan))
+					lines = append(lines, fmt.Sprintf("KNOWN-FINDING: property=%s %s [replay %s]", prop, k.What, path))
+				}
+				knownHits++
+				continue
+			}
+		}
+		tm := time.Now()
 		mp, mv := c.minimise(conf, minBudget)
+		logf("%s: class %s confirmed and minimised in %.1fs (%v -> %v)", prop, head(cl, 90), time.Since(tm).Seconds(), planSize(conf.Plan), planSize(mp))
 		dims := dimensions(mp)
 		if seenFinal[mv.Class+"|"+strings.Join(dims, ",")+"|"+firstLine(mv.Detail)] {
 			continue
 		}
 		seenFinal[mv.Class+"|"+strings.Join(dims, ",")+"|"+firstLine(mv.Detail)] = true
+		if c.prop == "C12" && !hasDim(dims, "concurrency") {
+			// reproduces with a single caller thread: not interference between
+			// concurrent calls (it is C10's or C11's matter, reported there)
+			c.count("dropped_needs_no_concurrency", 1)
+			logf("%s: class %s needs no concurrency after minimisation — not a C12 matter, dropped", prop, head(cl, 90))
+			continue
+		}
 		path := c.writeReplay(mp, mv, conf, dims)
 		if k := matchKnown(known, mv, dims); k != nil {
-			lines = append(lines, fmt.Sprintf("KNOWN-FINDING: property=%s %s [class %s; replay %s]", prop, k.What, mv.Class, path))
+			if !knownSeen[k.What] {
+				knownSeen[k.What] = true
+				lines = append(lines, fmt.Sprintf("KNOWN-FINDING: property=%s %s [class %s; replay %s]", prop, k.What, mv.Class, path))
+			}
 			knownHits++
 			continue
 		}
@@ -940,6 +1018,15 @@ func runCheck(prop, tier string, seed uint64, workers, budgetOverride int, keep,
 	}
 	fmt.Printf("OK property=%s tier=%s plans=%d ops=%d distinct_nontrivial=%d known_findings=%d wall=%.0fs\n", prop, tier, c.evals, c.ops, len(c.fps), knownHits, time.Since(startTime).Seconds())
 	return 0
+}
+
+func hasDim(dims []string, d string) bool {
+	for _, x := range dims {
+		if x == d {
+			return true
+		}
+	}
+	return false
 }
 
 func firstLine(s string) string {
@@ -1121,6 +1208,11 @@ func (c *Check) reachProblems() string {
 	case "C13":
 		if c.logBytes == 0 {
 			return "no log bytes were written by any run"
+		}
+		for _, b := range []string{"flags=2", "flags=4", "flags=8", "flags=16"} {
+			if c.logByFlags[b] == 0 {
+				return "the logging path of " + b + " never wrote a byte to a sink that accepts writes"
+			}
 		}
 	case "C12":
 		if c.switches == 0 {
